@@ -127,7 +127,7 @@ def _main(P, args, tier, seed, t0, wd):
     forbidden = core.forbidden_scan()
     if brc == 0:
         proofs = core.recheck_props(P.ID, wd)
-    facts = P.facts(wd) if hasattr(P, "facts") else {"ok": True, "lemmas": 0, "log": ""}
+    facts = P.facts(wd) if hasattr(P, "facts") else core.source_facts(P.ID, wd)
     proofs_ok = brc == 0 and proofs["ok"] and not forbidden and facts["ok"]
     coqchk = None
     if tier == "thorough" and brc == 0 and os.environ.get("VERIF_NO_COQCHK") != "1":
